@@ -75,7 +75,7 @@ func NewShared(kind string, n int) (*Shared, error) {
 			return nil, err
 		}
 		s.File = f
-		return s, s.more()
+		return s, s.more(i.Recipient()) // the shared recipient value stays unused until the goroutines start
 	case "ssh-rsa":
 		rsaOnce.Do(func() { rsaKey, _ = rsa.GenerateKey(rand.Reader, 2048) })
 		i, err := agessh.NewRSAIdentity(rsaKey)
@@ -91,15 +91,15 @@ func NewShared(kind string, n int) (*Shared, error) {
 		return nil, err
 	}
 	s.File = f
-	return s, s.more()
+	return s, s.more(s.Recipient)
 }
 
-// more fills Files/Plains and IDs.
-func (s *Shared) more() error {
+// more fills Files/Plains (encrypting to enc) and IDs.
+func (s *Shared) more(enc age.Recipient) error {
 	s.Files, s.Plains = [][]byte{s.File}, [][]byte{s.Plain}
 	for k := 1; k <= 3; k++ {
 		pt := append([]byte(fmt.Sprintf("other plaintext %d ", k)), s.Plain...)
-		r := s.Recipient
+		r := enc
 		if s.Kind == "scrypt" {
 			sr, _ := age.NewScryptRecipient("shared passphrase")
 			sr.SetWorkFactor(k) // other work factors as well as other salts
